@@ -248,6 +248,25 @@ pub fn install_panic_hook() {
             }
         }
         let thread = std::thread::current().name().unwrap_or("<unnamed>").to_string();
+        if msg.starts_with("unsafe precondition(s) violated") || msg.contains("cannot unwind") || msg.contains("panic in a destructor") {
+            // the process is about to abort (e.g. a failed `unsafe` precondition check of a
+            // debug-assertions build): leave the location for the supervisor
+            let mut loc = (file.clone(), line);
+            if !file.starts_with("/repo/") {
+                let bt = std::backtrace::Backtrace::force_capture().to_string();
+                for l in bt.lines() {
+                    let l = l.trim();
+                    if let Some(rest) = l.strip_prefix("at /repo/") {
+                        let mut it = rest.split(':');
+                        if let (Some(f), Some(n)) = (it.next(), it.next()) {
+                            loc = (format!("/repo/{f}"), n.parse().unwrap_or(0));
+                            break;
+                        }
+                    }
+                }
+            }
+            eprintln!("VERIF-NOUNWIND-PANIC {}:{} {}", loc.0, loc.1, msg.chars().take(160).collect::<String>().replace('\n', " "));
+        }
         let rec = PanicRec {
             kind,
             file,
@@ -259,6 +278,9 @@ pub fn install_panic_hook() {
         if IN_GUARD.with(|g| *g.borrow()) {
             LAST.with(|l| *l.borrow_mut() = Some(rec));
         } else {
+            if thread == "main" {
+                eprintln!("VERIF-HARNESS-PANIC {}:{} {}", rec.file, rec.line, rec.msg.chars().take(200).collect::<String>());
+            }
             OTHER.lock().unwrap_or_else(|e| e.into_inner()).push(rec);
         }
     }));
